@@ -3,6 +3,7 @@ import numpy as np
 from hypothesis import strategies as st
 
 from .. import core, gen, build, obs, lpkit, refmodel
+from .. import timeline as tl
 from ..core import Outcome, is_err
 
 ID = "C02"
@@ -35,6 +36,23 @@ def _strategy(draw):
             a["end"] = None
         if a["type"] == "storage":
             a["price"] = None
+            if draw(st.integers(0, 5)) == 0:
+                # the lean formulation (one variable per step: no loss, no in / out costs, one node) with holding cost
+                # and discounting
+                a.update(eff_in=1.0, cost_in=0.0, cost_out=0.0, nodes=a["nodes"][:1],
+                         cost_store=draw(st.sampled_from([0.0625, 0.25, 1.0])) / float(tl.dt(spec["grid"])[0]),
+                         wacc=draw(st.sampled_from([0.05, 0.4])))
+                if a["inflow"]:
+                    a["inflow"] = 0.0
+        if a["type"] in ("simple", "contract") and a.get("start") is None and a.get("end") is None and draw(st.integers(0, 7)) == 0:
+            # capacities as numpy arrays, one rate per step of the asset (accepted next to numbers)
+            T = spec["grid"]["T"]
+            for k in ("min_cap", "max_cap"):
+                if isinstance(a.get(k), (int, float)) and a[k] != 0:
+                    fs = draw(st.lists(st.sampled_from([1.0, 0.5, 0.25, 0.75]), min_size=T, max_size=T))
+                    a[k] = {"vec": [a[k] * f for f in fs]}
+            if isinstance(a["min_cap"], dict) or isinstance(a["max_cap"], dict):
+                a["min_take"] = a["max_take"] = None
     return spec
 
 
